@@ -17,9 +17,22 @@ SM_KICK = [sm.CalcCoefficiants, sm.UpdateSM, sm.KickMapApply, sm.SourceMapCtor, 
 SM_FP = [sm.FokkerPlanckCtor, sm.FokkerPlanckApply]
 TECH = 'contract-based deductive verification: contracts (specs/*.py) enforced on the real functions by a VCG over the clang AST, z3 (cvc5 second opinion); lemma layer over contract symbols'
 
+def _kick_sweep():
+    runs = []
+    for N in (8, 9, 16):
+        for nb in (1, 2, 3):
+            for it in (1, 2, 3, 4):
+                for ax in (0, 1):
+                    runs.append(['kick', N, nb, it, ax, -1, N + nb + it])
+    runs += [['rf', 16, nb, it, lin, 3] for nb in (1, 2, 3) for it in (2, 4) for lin in (0, 1)]
+    runs += [['conserve', 16, 2, it, ax, m, 8] for it in (1, 2, 3, 4) for ax in (0, 1) for m in (-5, -1, 0, 3, 5)]
+    return {'harness': 'sm_replay', 'runs': runs}
+
+
 PROPERTIES = {
     'C01': {
         'units': SM_KICK + SM_FP + [sm.IdentityApply],
+        'native_sweep': _kick_sweep(),
         'lemmas': [sm.lemmas_weights, sm.lemmas_c01_col, sm.lemmas_fp, sm.lemmas_fp_transition],
         'level': 'proof',
         'claim': 'every transport operator (kick maps via table rows, Fokker-Planck stencil, identity) has interior column sums 1 '
@@ -43,6 +56,7 @@ PROPERTIES = {
     },
     'C08': {
         'units': SM_KICK + SM_FP + [sm.IdentityApply],
+        'native_sweep': _kick_sweep(),
         'lemmas': [sm.lemmas_c08],
         'technique': TECH,
         'level': 'proof',
@@ -67,6 +81,7 @@ PROPERTIES = {
         'units': [ps.RulerCtor, ps.SimpsonWeights, ps.UpdateXProjection, ps.UpdateYProjection, ps.Integrate, ps.Normalize,
                   ps.Average, ps.Variance, ps.Swap, ps.Assign],
         'lemmas': [ps.lemmas_normalize],
+        'native_sweep': {'harness': 'ps_replay', 'runs': [['moments', N_, nb_, sd_] for N_ in (8, 9, 16, 17, 33) for nb_ in (1, 2, 3, 5) for sd_ in (1, 2)]},
         'level': 'proof',
         'claim': 'normalize scales every cell of bunch n by set/filling (empty buckets to zero) and nothing else; projections are the Simpson-weighted sums; '
                  'integral, mean, variance and rms of bunch n are the stated sums over bunch n own projection and charge only; swap/assignment carry data and everything '
@@ -79,6 +94,7 @@ PROPERTIES = {
     },
     'C06': {
         'units': [ef.PadBunchProfiles, ef.WakePotential],
+        'native_sweep': {'harness': 'ef_replay', 'runs': ef.EF_RUNS + [['wake', 16, '1', 0, n_, 7] for n_ in (32, 33, 34, 50, 97, 128)]},
         'lemmas': [],
         'level': 'proof',
         'claim': 'wakePotential = scale * IDFT_herm( Z[i]*DFT(train)[i] for i < n/2, zero from n/2 ) read back at bucket*spacing + x, where the train holds every bunch profile at '
@@ -91,6 +107,7 @@ PROPERTIES = {
     },
     'C18': {
         'units': [ef.PadBunchProfiles, ef.WakePotential, ef.UpdateCSR],
+        'native_sweep': {'harness': 'ef_replay', 'runs': ef.EF_RUNS + [['wake', 16, '11', 16, n_, 8] for n_ in (34, 38, 42, 46, 50, 54, 58, 62, 66, 70)]},
         'lemmas': [],
         'level': 'other',
         'claim': 'every cell a transform reads is determined by the current profile/impedance or is a never-written zero: train layout incl. zeros outside the bunch ranges, '
@@ -114,6 +131,7 @@ PROPERTIES = {
     },
     'C16': {
         'units': [z.FreeSpaceCSRCalc, z.ResistiveWallCalc, z.ConstImpedanceCalc, z.ImpedanceAddAssign],
+        'native_sweep': {'harness': 'ef_replay', 'runs': [['z', n_] for n_ in list(range(2, 40)) + [255, 256, 257, 1023, 1024]]},
         'lemmas': [],
         'level': 'other',
         'claim': 'free-space CSR, resistive wall and constant impedance return exactly n samples (n >= 2), zero above n/2, non-negative real part, with the cube-root / square-root / constant laws; '
